@@ -9,7 +9,7 @@ PROPS = {
         check_targets=["Check/CheckSideFx.vo"],
         proof_targets=["Props/C23.vo"],
         theorems=[("C23", "C23_additions"), ("C23", "C23_parsed_items_unreported"), ("C23", "C23_probe_ids"), ("C23", "C23_checker_sound")],
-        quick=dict(n=1500), thorough=dict(n=30000), per_shard=300,
+        quick=dict(n=1500), thorough=dict(n=30000), per_shard=200,
         rule="generated modules (0-4 imports of all five kinds, 1-3 local functions, globals, memories, 1-3 types, parsed exports and data segments) and histories of 0-6 additions "
              "(add_func_type, add_import_func / add_imported_global / add_import_memory, FunctionBuilder::finish_module with index-bearing bodies, add_global, iterator add_global, "
              "add_local_memory, add_export_func / add_export_mem, add_data active / passive) each through the `_with_tag` variant / tag argument (non-empty tag), the plain variant "
